@@ -14,9 +14,12 @@ Record obs := mkobs { b_code : N; b_qlen : N; b_drop : bool; b_recv : option byt
 
 (* c_ops includes the driver's final Close and drain. c_parsed: (bytes, ParseBatchMessage result of the
    implementation) for every received item and for some corrupted variants. *)
+(* c_race: None for ordinary cases. Some code: the driver forced the schedule "the timer fires while
+   Close() is between m.l.Lock() and pendingTimer.Stop()" on a buffer with one pending message;
+   code 0 = Close returned, 7 = Close never returned. *)
 Record case := mk {
   c_cap : N; c_max : N; c_ops : list op; c_obs : list obs;
-  c_parsed : list (bytes * option (list bytes)) }.
+  c_parsed : list (bytes * option (list bytes)); c_race : option N }.
 
 Definition opt_bytes_eqb (a b : option bytes) : bool :=
   match a, b with
@@ -59,6 +62,7 @@ Fixpoint sim (cap max : N) (s : st) (ops : list op) (os : list obs) : bool :=
   end.
 
 Definition check_case (c : case) : bool :=
+  match c_race c with Some code => code =? race_outcome | None => true end &&
   sim (c_cap c) (c_max c) init (c_ops c) (c_obs c) &&
   forallb (fun p => opt_msgs_eqb (parse_batch (fst p)) (snd p)) (c_parsed c).
 
@@ -133,6 +137,8 @@ Fixpoint spec_run (cap max : N) tab (s : sp) (ops : list op) (os : list obs) : b
   end.
 
 Definition spec_ok (c : case) : bool :=
+  (* Close at any point must return *)
+  match c_race c with Some code => code =? 0 | None => true end &&
   match c_ops c with
   | [] => true   (* raw parse cases: only the correspondence of parse_batch is checked *)
   | _ => spec_run (c_cap c) (c_max c) (c_parsed c) (mksp [] [] 0 false) (c_ops c) (c_obs c)
@@ -144,9 +150,9 @@ Definition selftest_good : case :=
   mk 2 10 st_ops
      [mkobs 0 0 false None; mkobs 0 1 false None; mkobs 0 2 false None;
       mkobs 0 1 false (Some [10;5;1;1;1;1;1]); mkobs 0 0 false (Some [10;5;2;2;2;2;2]); mkobs 1 0 false None]
-     [([10;5;1;1;1;1;1], Some [[1;1;1;1;1]]); ([10;5;2;2;2;2;2], Some [[2;2;2;2;2]])].
+     [([10;5;1;1;1;1;1], Some [[1;1;1;1;1]]); ([10;5;2;2;2;2;2], Some [[2;2;2;2;2]])] None.
 Definition selftest_bad : case :=
   mk 2 10 st_ops
      [mkobs 0 0 false None; mkobs 0 0 false None; mkobs 0 1 false None;
       mkobs 0 0 false (Some [10;5;1;1;1;1;1;10;5;2;2;2;2;2]); mkobs 1 0 false None; mkobs 1 0 false None]
-     [([10;5;1;1;1;1;1;10;5;2;2;2;2;2], Some [[1;1;1;1;1]; [2;2;2;2;2]])].
+     [([10;5;1;1;1;1;1;10;5;2;2;2;2;2], Some [[1;1;1;1;1]; [2;2;2;2;2]])] None.
